@@ -511,6 +511,22 @@ def main(tier, seed, keep=False):
             val_fail.append((subset, out[-2500:]))
         elif not subset and 'at least one of the trait features must be enabled' not in out:
             val_fail.append((subset, 'empty feature set did not fail with the explicit message: ' + out[-800:]))
+    # the same for the partner-gate rule: subsets in which every coupled partner is compiled out (and, thorough, every singleton and
+    # all-but-one subset) must expand the E2 corpus exactly like the all-features build
+    diff_subsets = [['Debug', 'Copy', 'Eq', 'Ord', 'Deref'], ['Clone', 'PartialEq', 'PartialOrd', 'Hash', 'Default', 'Into']]
+    if tier != 'quick':
+        diff_subsets += [[f] for f in FEATURES] + [[f for f in FEATURES if f != g] for g in FEATURES]
+    diff_checked = 0
+    for subset in diff_subsets:
+        if any(tuple(subset) == s for s in by_subset):
+            continue
+        ok, detail = replay_partner(subset, [])
+        if ok is False:
+            violations.append((tuple(subset), [dict(kind='validation', where='expansion differential', what='subset expands the corpus differently from the all-features build although every partner-gate obligation is unsat (found by the differential validation pass, not by the solver)')], detail))
+        elif ok is None and 'expand identically' not in detail:
+            inconclusive.append(f'expansion differential for {subset}: {detail[:400]}')
+        else:
+            diff_checked += 1
     for subset, out in val_fail:
         # rustc refutes a subset the model calls fine: a real failure the encoder did not predict — still a violation, found by the validation pass
         violations.append((tuple(subset), [dict(kind='validation', where='cargo check', what='subset fails to build although every structural query is unsat (found by the rustc validation pass, not by the solver)')], out))
@@ -534,7 +550,7 @@ def main(tier, seed, keep=False):
                            'the behavioural half (enabled traits behave as in the full build) is discharged by E1 on a stated list of subsets only'],
               coverage=dict(evaluations=len(qs), distinct_nontrivial=len({q['what'] for q in qs}), obligations=len(qs), discharged=len(qs) - len(sat), queries_by_kind=counts, solver_time_s=round(solver_s, 3),
                             sat_models=len(sat), distinct_subsets_replayed=replays, models_refuted_by_rustc=[dict(subset=list(s), what=w[:3]) for s, w in refuted][:10],
-                            rustc_validated_subsets=validated, cross_solver=cross, modules=len(facts.files), samples=samples,
+                            rustc_validated_subsets=validated, expansion_differential_subsets=diff_checked, cross_solver=cross, modules=len(facts.files), samples=samples,
                             rule='one obligation per (reference site, target) / cfg-gated let use / gate equivalence; the feature subset (all 4096) is the SAT variable; distinct = distinct (site, target) descriptions',
                             functions_encoded=['cfg(feature) structure of every module under /repo/src (lib.rs dispatch, supported_traits.rs, common/mod.rs, common/tools/mod.rs, trait_handlers/mod.rs, all handlers)'],
                             bounds=dict(feature_subsets='all 4096 (symbolic)', outside=['warnings other than unused imports / unresolved names', 'anything rustc decides that the reference model does not see', 'behaviour under subsets outside the stated list']),
